@@ -537,6 +537,48 @@ def rule_i_scaled_once(ctx, pdfs):
     return n
 
 
+def rule_j_written_with_scale(ctx, pdfs):
+    """the counterpart of rule i for writers: what is stored is value / scale_factor, so every write_data call of a setter receives a
+    scale that is (a local copy of) this->scale_factor, and a scale changed by write_data is treated as a failure"""
+    from engine.algebra import LocalDefs
+
+    n = 0
+    seen = set()
+    for f in pdfs.functions:
+        if f.cls != "stir::ProjDataFromStream" or f.body is None or not f.cfg_raw or (f.file, f.line) in seen:
+            continue
+        W = [c for c in f.calls() if c.callee == "stir::write_data" and len(c.call_args()) >= 4]
+        if not W:
+            continue
+        seen.add((f.file, f.line))
+        defs = LocalDefs(f)
+        fid = f.qn + "(" + f.sig[:40] + ")"
+        for i, c in enumerate(W):
+            a = c.call_args()[3].strip()
+            ok = False
+            det = "scale argument is %s" % key(a, True)
+            if a.k == "DeclRefExpr" and a.get("dk") == "local":
+                d = a.get("d")
+                srcs = set()
+                vd = defs.decl.get(d)
+                if vd is not None and vd.c:
+                    srcs.add(key(vd.c[0].strip()))
+                for w in defs.writes.get("v%d" % d, []):
+                    if w.k in ("BinaryOperator",) and w.op == "=":
+                        srcs.add(key(w.c[1].strip()))
+                    # write_data itself may update its in/out scale argument; that is what the check below is for
+                ok = srcs == {"this.scale_factor"}
+                det = "scale passed to write_data is initialised from %s" % sorted(srcs)
+                # a changed scale is detected
+                tests = [m for m in f.walk() if m.k == "BinaryOperator" and m.op in ("!=", "==") and {key(m.c[0].strip()), key(m.c[1].strip())} == {"v%d" % d, "this.scale_factor"}]
+                if ok and not tests:
+                    ok = False
+                    det += "; but a scale changed by write_data is not compared with scale_factor"
+            ctx.ob("C02.j-written-with-scale", fid, "write_data@%d" % i, ok, c.where(), det if ok else "values are not stored divided by the data set's scale_factor: " + det)
+            n += 1
+    return n
+
+
 def run(ctx):
     ctx.explanation = (
         "Decides structural necessary conditions of C02 from the source: (a) all five bin coordinates are range-checked "
@@ -603,6 +645,8 @@ def run(ctx):
         header_keys_agree(ctx, fl(ifile) + used_helpers, fl(hdr) + fl(hdrspect), fl(kwu), rule="C02.h-header-keys-agree", writers=("write_basic_interfile_PDFS_header", "write_interfile_"))
         ctx.require_count("C02.h-header-keys-agree", 25)
     rule_i_scaled_once(ctx, pdfs)
+    rule_j_written_with_scale(ctx, pdfs)
+    ctx.require_count("C02.j-written-with-scale", 7)
     ctx.require_count("C02.i-scale-applied-once", 6)
     ctx.require_count("C02.g-header-segment-order", 12)
     ctx.require_count("C02.a-bounds", 20)
